@@ -27,3 +27,18 @@ def cleanup(ctx):
 
 ALL_PATHS = ["setBit", "clearBit", "setRow", "clearRow", "bulk", "bulkMutex", "roaring",
              "setValue", "clearValue", "importValue"]
+
+
+WRITES_SET = ["SetBit", "ClearBit", "SetRow", "ClearRow", "BulkSet", "BulkClear", "RoaringSet", "RoaringClear"]
+WRITES_MUTEX = ["BulkMutex"]
+WRITES_BSI = ["SetValue", "ClearValue", "ImportValue", "ImportValueClear"]
+SNAPS = ["Snapshot", "BgSnapshot", "Reopen"]
+
+
+def require_ops(ctx, ops, extra=()):
+    """A run in which some action of the specification was never replayed is vacuous for
+    that action: inconclusive, not held."""
+    missing = [o for o in ops if not ctx.extra_cov.get("op_" + o)]
+    missing += [k for k in extra if not ctx.extra_cov.get(k)]
+    if missing:
+        ctx.inconclusive.append("never replayed: " + ", ".join(missing))
